@@ -13,7 +13,7 @@ import (
 func TestVerif_C31(t *testing.T) {
 	r := verifrt.Start(t, "C31")
 	defer r.Finish()
-	r.Rule("case = (mode in {time passivation, explicit PoisonPill, shutdown under traffic, mixed}, 1-2 grain identities, senders, messages/sender, ask share, dwell in OnReceive/OnDeactivate/OnActivate, occasional handler longer than the passivation timeout, passivation timeout, reentrancy on/off, grain interval timer, throughput budget, GOMAXPROCS, k hot noise sites) on a fresh local actor system; senders pace themselves around observed deactivations (send right after an OnDeactivate exit, sleep about one passivation timeout); oracle = per-activation automaton (OnActivate exit before any OnReceive, no OnReceive once OnDeactivate has begun, OnDeactivate exactly once per completed activation after the system has stopped) + CAS hook-in-progress word per activation + race detector on plain grain fields + send ledger (nil error => handled, unless the call interval overlapped a deactivation or shutdown; a call started after OnDeactivate returned must be handled by a later activation on a fresh instance); non-trivial = at least one deactivation under traffic and at least one send that started after an OnDeactivate exit and was handled by a later activation; distinct by knob tuple and seed")
+	r.Rule("case = (mode in {time passivation, explicit PoisonPill, shutdown under traffic, mixed}, 1-2 grain identities, senders, messages/sender, ask share, dwell in OnReceive/OnDeactivate/OnActivate, occasional handler longer than the passivation timeout, passivation timeout, reentrancy on/off, grain interval timer, throughput budget, GOMAXPROCS, k hot noise sites) on a fresh local actor system; senders pace themselves around observed deactivations (send right after an OnDeactivate exit, sleep about one passivation timeout); oracle = per-activation automaton (OnActivate exit before any OnReceive, no OnReceive once OnDeactivate has begun, OnDeactivate exactly once per completed activation after the system has stopped) + CAS hook-in-progress word per activation + race detector on plain grain fields + send ledger (nil error => handled, unless the call interval overlapped a deactivation or shutdown; a call started after OnDeactivate returned must be handled by a later activation on a fresh instance; a call issued after isStopping() was read true must be rejected); non-trivial = at least one deactivation under traffic and at least one send that started after an OnDeactivate exit and was handled by a later activation; distinct by knob tuple and seed")
 	rng := r.Rand(31)
 	n := r.N(64, 1500)
 	for i := 0; i < n; i++ {
@@ -29,6 +29,7 @@ func TestVerif_C31(t *testing.T) {
 		r.Count("sends_nil_error", int64(obs.SendsOK))
 		r.Count("sends_error_accepted", int64(obs.SendsErr))
 		r.Count("sends_right_after_deactivation", int64(obs.Probes))
+		r.Count("sends_issued_after_stopping_observed", int64(obs.AfterStopping))
 		r.Count("sends_after_deactivation_handled_by_fresh_activation", int64(obs.FreshHandled))
 		r.Count("nil_error_unhandled_racing_deactivation_tolerated", int64(obs.RacedLoss))
 		r.Count("ask_reply_id_mismatch", int64(obs.ReplyMismatch))
